@@ -10,6 +10,7 @@ import (
 	"path/filepath"
 	"reflect"
 	"sort"
+	"strconv"
 	"strings"
 	"sync"
 	"time"
@@ -60,7 +61,7 @@ func c11Validate(q string) func(s *ast.Schema) string {
 	}
 }
 
-const c11VarsDoc = `query Q($a: Int = 1, $k: Kind = DOG, $f: Filter = {req: true}, $xs: [[Int]!], $fl: Float) { req(a: $a) pet(kind: $k) { id } search(f: $f, ks: [$k]) { __typename } list(xs: $xs) id @tag(name: "t", n: $a) nums n2: nums(xs: [1], z: $fl) o: id @once o2: id @once(w: $fl) }`
+const c11VarsDoc = `query Q($a: Int = 1, $k: Kind = DOG, $f: Filter = {req: true}, $xs: [[Int]!], $fl: Float, $big: Big = B9, $bigs: [Big!]) { req(a: $a) pet(kind: $k) { id } search(f: $f, ks: [$k]) { __typename } list(xs: $xs) id @tag(name: "t", n: $a) nums n2: nums(xs: [1], z: $fl) o: id @once o2: id @once(w: $fl) big(b: $big, bs: $bigs) }`
 
 func c11Coerce(vars func() map[string]any) func(s *ast.Schema) string {
 	return func(s *ast.Schema) string {
@@ -116,10 +117,10 @@ var c11Ops = []c11Op{
 	{"validate-overlap", c11Validate(`{ pet { n: name ...O } pet { n: nick } search { ... on Pet { n: name } ... on Person { n: nick } } req } fragment O on Pet { n: name }`)},
 	{"validate-deep-introspection", c11Validate(`{ __schema { types { ...A } } } fragment A on __Type { fields { type { ...B } } } fragment B on __Type { fields { type { fields { name } } } }`)},
 	{"coerce-conforming", c11Coerce(func() map[string]any {
-		return map[string]any{"a": 5, "k": "CAT", "f": map[string]any{"req": true, "kinds": "DOG", "sub": map[string]any{"req": false}}}
+		return map[string]any{"a": 5, "k": "CAT", "big": "B10", "bigs": []any{"B1", "B9"}, "f": map[string]any{"req": true, "kinds": "DOG", "sub": map[string]any{"req": false}}}
 	})},
 	{"coerce-lists", c11Coerce(func() map[string]any { return map[string]any{"xs": []any{1, []any{2, nil}}, "f": nil} })},
-	{"coerce-error", c11Coerce(func() map[string]any { return map[string]any{"f": map[string]any{"req": nil}} })},
+	{"coerce-error", c11Coerce(func() map[string]any { return map[string]any{"big": "B11", "f": map[string]any{"req": nil}} })},
 	{"argument-map-fields", c11ArgMap(false)},
 	{"argument-map-directives", c11ArgMap(true)},
 	{"format-schema", func(s *ast.Schema) string {
@@ -389,6 +390,109 @@ func c11Uninstall() {
 }
 
 // c11History runs the operations one after another on one fresh schema.
+// globalsSnapshot: a canonical dump of every package-level variable of the repository (as
+// registered by the build overlay), one entry per variable. Functions and channels are
+// skipped; pointers are followed (cycles cut). The library's operations on a loaded schema are
+// supposed to be functions of their arguments: a package-level variable that changes while
+// they run is state shared by every goroutine and every schema of the process.
+func globalsSnapshot() map[string]string {
+	out := map[string]string{}
+	for _, g := range verifhook.Globals {
+		var b strings.Builder
+		seen := map[uintptr]bool{}
+		var rec func(v reflect.Value, depth int)
+		rec = func(v reflect.Value, depth int) {
+			if depth > 12 || !v.IsValid() {
+				b.WriteString("…")
+				return
+			}
+			switch v.Kind() {
+			case reflect.Ptr:
+				if v.IsNil() {
+					b.WriteString("nil")
+					return
+				}
+				if seen[v.Pointer()] {
+					b.WriteString("^")
+					return
+				}
+				seen[v.Pointer()] = true
+				b.WriteString("&")
+				rec(v.Elem(), depth+1)
+			case reflect.Interface:
+				if v.IsNil() {
+					b.WriteString("nil")
+					return
+				}
+				rec(v.Elem(), depth+1)
+			case reflect.Struct:
+				b.WriteString("{")
+				for i := 0; i < v.NumField(); i++ {
+					b.WriteString(v.Type().Field(i).Name + ":")
+					rec(v.Field(i), depth+1)
+					b.WriteString(" ")
+				}
+				b.WriteString("}")
+			case reflect.Slice, reflect.Array:
+				fmt.Fprintf(&b, "[%d:", v.Len())
+				for i := 0; i < v.Len() && i < 400; i++ {
+					rec(v.Index(i), depth+1)
+					b.WriteString(",")
+				}
+				b.WriteString("]")
+			case reflect.Map:
+				keys := v.MapKeys()
+				ks := make([]string, len(keys))
+				byKey := map[string]reflect.Value{}
+				for i, k := range keys {
+					ks[i] = fmt.Sprint(k)
+					byKey[ks[i]] = v.MapIndex(k)
+				}
+				sort.Strings(ks)
+				fmt.Fprintf(&b, "map[%d:", len(ks))
+				for _, k := range ks {
+					b.WriteString(k + "=")
+					rec(byKey[k], depth+1)
+					b.WriteString(",")
+				}
+				b.WriteString("]")
+			case reflect.Func, reflect.Chan, reflect.UnsafePointer:
+				if v.IsNil() {
+					b.WriteString("nil")
+				} else {
+					b.WriteString("fn")
+				}
+			case reflect.String:
+				b.WriteString(strconv.Quote(v.String()))
+			case reflect.Bool:
+				fmt.Fprint(&b, v.Bool())
+			case reflect.Int, reflect.Int8, reflect.Int16, reflect.Int32, reflect.Int64:
+				fmt.Fprint(&b, v.Int())
+			case reflect.Uint, reflect.Uint8, reflect.Uint16, reflect.Uint32, reflect.Uint64, reflect.Uintptr:
+				fmt.Fprint(&b, v.Uint())
+			case reflect.Float32, reflect.Float64:
+				fmt.Fprint(&b, v.Float())
+			default:
+				b.WriteString("?")
+			}
+		}
+		rec(reflect.ValueOf(g.Ptr), 0)
+		out[g.Name] = snapHash(b.String())
+	}
+	return out
+}
+
+func globalsDiff(a, b map[string]string) string {
+	var names []string
+	for k, v := range b {
+		if a[k] != v {
+			names = append(names, k)
+		}
+	}
+	sort.Strings(names)
+	return strings.Join(names, ",")
+}
+
 func c11History(c *explore.Ctx, s *explore.SubStats, ops []int, states map[string]bool) {
 	in := c11Input{Kind: "history", Ops: append([]int{}, ops...)}
 	explore.Crumb(s.Name, in.String())
@@ -404,10 +508,15 @@ func c11History(c *explore.Ctx, s *explore.SubStats, ops []int, states map[strin
 	mon := &c11Monitor{ow: ow}
 	mon.install()
 	defer c11Uninstall()
+	glob0 := globalsSnapshot()
 	for i, o := range ops {
 		var res string
 		r := guarded(20_000_000, 0, func() { res = c11Ops[o].Run(schema) })
 		s.Transitions++
+		if d := globalsDiff(glob0, globalsSnapshot()); d != "" && !r.Panicked {
+			bad("drift/global var="+d+" op="+c11Ops[o].Name, fmt.Sprintf("%s changed the package-level variable(s) %s of the library: state shared by every goroutine and schema of the process", c11Ops[o].Name, d), "", "")
+			return
+		}
 		if r.Panicked {
 			bad("panic op="+c11Ops[o].Name, r.PanicVal+"\n"+trimStack(r.Stack), "", "")
 			return
